@@ -509,6 +509,7 @@ func main() {
 			"map iteration over ordered keys is determinised (sorted); Go's random map order is not explored",
 			"sync.Pool is a deterministic LIFO emptied at the start of every execution",
 			"unsynchronised shared accesses are outside the scheduler's model (data races are the business of the separate -race pass)",
+			"verification build only: lock-striping tables shrunk (numSubLocks=64, numMediumLocks=64, numPubLocks=64), numSubDissolverWorkers=4, metrics code-string table 0..16 (getCodeLabel falls back to strconv); library goroutines outside the scheduler are off (metrics aggregation interval 0, no singleflight, no otter caches)",
 		},
 		"wall_s":     time.Since(start).Seconds(),
 		"violations": unlisted,
